@@ -144,12 +144,13 @@ pub(super) fn resolve_imports(
 
                     // The package may have been renamed in the `Cargo.toml` manifest of the current crate.
                     // We want to retrieve its "source" name.
-                    path.0[0] = {
-                        let package_metadata = package_graph
-                            .metadata(&package_id)
-                            .expect("Failed to retrieve metadata for a package");
-                        package_metadata.name().to_owned()
-                    };
+                    //
+                    // Toolchain crates (e.g. `std`) are resolved by name, without going through the
+                    // package graph: they have no metadata and they can't be renamed, so the name
+                    // we already have is the "source" name.
+                    if let Ok(package_metadata) = package_graph.metadata(&package_id) {
+                        path.0[0] = package_metadata.name().to_owned();
+                    }
                     resolved_imports.push((
                         ResolvedImport {
                             path: path.0,
